@@ -608,12 +608,21 @@ where
                 }
                 let f = self.get(tok[1])?;
                 let mut tt: u128 = 0;
+                // "if the valuation for a variable is given multiple times, the last value counts": every
+                // assignment is evaluated a second time with each variable listed twice (first the opposite
+                // value, in descending order, then the intended one)
+                let mut dup_ok = true;
                 for a in 0..(1u32 << n) {
-                    if f.eval((0..n).map(|v| (v, a >> v & 1 == 1))) {
+                    let r = f.eval((0..n).map(|v| (v, a >> v & 1 == 1)));
+                    if r {
                         tt |= 1 << a;
                     }
+                    let twice = (0..n).rev().map(|v| (v, a >> v & 1 == 0)).chain((0..n).map(|v| (v, a >> v & 1 == 1)));
+                    if f.eval(twice) != r {
+                        dup_ok = false;
+                    }
                 }
-                Ok(format!("tt {n} {tt:x}"))
+                Ok(format!("tt {n} {tt:x} dup={}", dup_ok as u8))
             }
             "SATVALID" => {
                 let f = self.get(tok[1])?;
